@@ -849,7 +849,20 @@ pub struct Corruption {
     pub expect_typename: Option<(String, String)>,
 }
 
+thread_local! {
+    static KEEP_OBJECT_TYPENAME: std::cell::Cell<bool> = const { std::cell::Cell::new(false) };
+}
+
 impl<'a> PayloadGen<'a> {
+    /// `expected`, for an implementation that KEEPS `__typename` where the static type is an object type (the statement
+    /// allows the key to be dropped there, it does not demand it)
+    pub fn expected_keeping_object_typename(&self, op: &AOp, payload: &Value) -> Value {
+        KEEP_OBJECT_TYPENAME.with(|k| k.set(true));
+        let v = self.expected(op, payload);
+        KEEP_OBJECT_TYPENAME.with(|k| k.set(false));
+        v
+    }
+
     /// what `to_value(from_value(payload))` must give, up to the differences the property allows:
     /// integer IDs as decimal strings, `__typename` dropped where the static type is an object type,
     /// null members dropped.
@@ -882,7 +895,7 @@ impl<'a> PayloadGen<'a> {
                 None => continue,
             };
             if fname == "__typename" {
-                if self.s.is_abstract(static_ty) {
+                if self.s.is_abstract(static_ty) || KEEP_OBJECT_TYPENAME.with(|k| k.get()) {
                     out.insert(key, val.clone());
                 }
                 continue;
